@@ -20,13 +20,14 @@ def replay(d):
     targets = ['fa.l%d' % k for k in range(N)]
     if second:
         targets += ['fb%s.r0' % inst, 'fb%s.o0' % inst]
-        if b.get('instanced'):
+        if b.get('instanced') and b.get('two_copies'):
             targets.append('fb:1.r0')
     targets.append('nope.x')
     targets.append('fa.zz')
     input_names = ['fa.i%d' % j for j in range(M)]
     if second:
         input_names.append('fb%s.j0' % inst)
+    all_input_names = list(input_names) + (['fb:1.j0'] if (second and b.get('instanced') and b.get('two_copies')) else [])
     program = {k: v for k, v in wit['program']}
     preds = wit['preds']
     log = []
@@ -38,6 +39,16 @@ def replay(d):
         return program[key]
 
     def make_value_fn(line_name):
+        own_form = line_name.split('.')[0]
+
+        def rel(name):
+            f, base = name.split('.', 1)
+            if f == own_form:
+                return base, name
+            if b.get('instanced') and own_form == 'fb:1' and name == 'fb:0.j0':
+                return base, own_form + '.' + base
+            return name, name
+
         def value_fn(self, i, v):
             node = ()
             reads = []
@@ -55,11 +66,11 @@ def replay(d):
                         mode = program[mkey]
                 MISSING = -1
                 if a < len(input_names):
-                    name = input_names[a]
-                    val = i[name] if mode == 0 else (i.get(name, MISSING) if mode == 1 else (1 if name in i else 0))
+                    lname, name = rel(input_names[a])
+                    val = i[lname] if mode == 0 else (i.get(lname, MISSING) if mode == 1 else (1 if lname in i else 0))
                 else:
-                    name = targets[a - len(input_names)]
-                    val = v[name] if mode == 0 else (v.get(name, MISSING) if mode == 1 else (1 if name in v else 0))
+                    lname, name = rel(targets[a - len(input_names)])
+                    val = v[lname] if mode == 0 else (v.get(lname, MISSING) if mode == 1 else (1 if lname in v else 0))
                     log.append(('read_line_ok', line_name, name))
                 reads.append(val)
                 pname = 'pred_%s_%d' % (line_name.replace('.', '_').replace(':', '_'), len(node))
@@ -105,10 +116,10 @@ def replay(d):
             if not cp.has_section(sec):
                 cp.add_section(sec)
             cp.set(sec, key, text)
-        for name in input_names:
+        for name in all_input_names:
             if wit.get('defaults', {}).get(name):
                 cp.set('DEFAULT', name.split('.')[1], str(_h('inval', 'DEFAULT.' + name.split('.')[1])))
-        for name in input_names:
+        for name in all_input_names:
             if name in (preset or {}):
                 continue
             if wit['present'].get(name):
